@@ -34,6 +34,7 @@ def run(prog, rep, tier='quick'):
     rep.rule('exact-solve', 'lstsq is called without cond / rcond (no singular-value truncation)')
     rep.rule('marple-normalisation', 'size signature of the returned variances == 1/(N-p)')
     rep.rule('admission', 'no guard on (N, order) raises on the grid N=6..12, order=1..N/2 (arcovar, modcovar and the Marple recursions)')
+    rep.rule('final-order-variance', 'a variance returned from inside the order loop depends (def-use within the iteration) on the coefficient stored in that iteration')
     rep.rule('guard-consistency', 'all raise-guards of one scalar inside a Marple recursion accept the same interval (open/closed ends included)')
     seen = set()
     cm = prog.func('linalg', 'corrmtx')
@@ -241,6 +242,74 @@ def run(prog, rep, tier='quick'):
                 else:
                     rep.violation('marple-normalisation', f.qname, 'variance[%d] [%s]' % (i, ctx), 'the returned variance is normalised by '
                                   '%s, not by the number of equations N-p' % (('1/(%s)' % sp.simplify(1 / sz)) if sz not in (None, 0) else 'an unknown factor'), where)
+    # the variance returned from inside the order recursion includes the order update of the final order: in the iteration that
+    # returns, every returned scalar is (re)computed from the coefficient stored in that iteration
+    n_fo = 0
+    for mod, fname in (('covar', 'arcovar_marple'), ('modcovar', 'modcovar_marple')):
+        f = prog.func(mod, fname)
+        for lp in [n_ for n_ in ast.walk(f.node) if isinstance(n_, (ast.For, ast.While))]:
+            ridx = [i_ for i_, st_ in enumerate(lp.body) if any(isinstance(x_, ast.Return) for x_ in ast.walk(st_))]
+            if not ridx:
+                continue
+            R_ = ridx[0]
+            ret = [x_ for x_ in ast.walk(lp.body[R_]) if isinstance(x_, ast.Return)][0]
+            if not isinstance(ret.value, ast.Tuple) or len(ret.value.elts) < 2 or not isinstance(ret.value.elts[0], ast.Name):
+                continue
+            coef_arr = ret.value.elts[0].id
+            deps = {}
+
+            def closure(names):
+                out = set()
+                todo = list(names)
+                while todo:
+                    n_ = todo.pop()
+                    if n_ in out:
+                        continue
+                    out.add(n_)
+                    todo += list(deps.get(n_, ()))
+                return out
+            coef_names = set()
+
+            def scan(stmts, stop=None):
+                for st_ in stmts:
+                    if st_ is stop:
+                        return True
+                    for x_ in ast.walk(st_):
+                        if isinstance(x_, ast.Return) and x_ is ret:
+                            # statements of this block that precede the return have been scanned by the recursive walk below
+                            pass
+                    if isinstance(st_, ast.Assign) and len(st_.targets) == 1:
+                        t_ = st_.targets[0]
+                        used = {n_.id for n_ in ast.walk(st_.value) if isinstance(n_, ast.Name)}
+                        if isinstance(t_, ast.Name):
+                            deps[t_.id] = closure(used) - {t_.id} | ({t_.id} & set()) | (deps.get(t_.id, set()) if t_.id in used else set())
+                        elif isinstance(t_, ast.Subscript) and isinstance(t_.value, ast.Name) and t_.value.id == coef_arr \
+                                and isinstance(st_.value, ast.Name):
+                            coef_names.add(st_.value.id)
+                    elif isinstance(st_, ast.If):
+                        for blk in (st_.body, st_.orelse):
+                            if any(x_ is ret for b_ in blk for x_ in ast.walk(b_)):
+                                if scan(blk, stop=None):
+                                    return True
+                    if any(x_ is ret for x_ in ast.walk(st_)) and isinstance(st_, ast.Return):
+                        return True
+                return False
+            scan(lp.body[:R_ + 1])
+            if not coef_names:
+                continue
+            n_fo += 1
+            appended = {a_.func.value.id for a_ in ast.walk(lp) if isinstance(a_, ast.Call) and isinstance(a_.func, ast.Attribute)
+                        and a_.func.attr == 'append' and isinstance(a_.func.value, ast.Name)}
+            bad_ = [el.id for el in ret.value.elts[1:] if isinstance(el, ast.Name) and el.id != coef_arr and el.id not in appended
+                    and not (closure({el.id}) & coef_names)]
+            if bad_:
+                rep.violation('final-order-variance', f.qname, 'return inside the recursion', 'the returned %s does not depend on the coefficient '
+                              '(%s) stored in the iteration that returns: the order update of the last order is missing from the returned '
+                              'variance, which is then the minimum of order p-1' % (bad_, sorted(coef_names)), loc(f.mod, ret))
+            else:
+                rep.proved('final-order-variance', f.qname, 'return inside the recursion', 'the returned scalars are recomputed from %s before '
+                           'the return' % sorted(coef_names), loc(f.mod, ret))
+    rep.floor('in-loop returns examined', n_fo, 1)
     # validity tests of the recursion scalars: every test of one scalar inside one recursion accepts the same interval
     from ..guards import accepted_intervals, show as show_iv
     n_g = 0
